@@ -548,3 +548,160 @@ def ob_statistic_sum(ctx):
         res.status, res.detail = 'inconclusive', 'vacuous'
     res.time = time.time() - t0
     return res
+
+
+# ---------------------------------------------------------------------------------------------------------------------
+# C10: job rules E1101, E1102, E1105, E1106, E1107 and vehicle rule E1306 (numeric / structural kernels of the validator)
+
+JOB_TEMPLATES = {
+    # kind -> number of tasks (None = the list is absent, 0 = empty list)
+    'pd': {'pickups': 2, 'deliveries': 1, 'replacements': None, 'services': None},
+    'mixed': {'pickups': None, 'deliveries': 1, 'replacements': 1, 'services': 1},
+    'empty': {'pickups': None, 'deliveries': 0, 'replacements': None, 'services': 0},
+    'p-only': {'pickups': 1, 'deliveries': 0, 'replacements': None, 'services': None},
+}
+JOB_RULES = (('check_e1101_correct_job_types_demand', 'E1101'), ('check_e1102_multiple_pickups_deliveries_demand', 'E1102'),
+             ('check_e1105_empty_jobs', 'E1105'), ('check_e1106_negative_duration', 'E1106'), ('check_e1107_negative_demand', 'E1107'))
+
+
+def ob_job_rules(ctx, template, dims=1):
+    """C10: the job rules of the validator (real MIR of check_e1101/02/05/06/07, `ValidationContext::{jobs,tasks}`,
+    `MultiDimLoad::{new,sum,sub,ne}` from vrp-core) on one job of the given task layout with symbolic contents - demand
+    present or absent per task, every amount and every duration of any sign: each rule returns an error exactly when the
+    documented rule is broken, and the error carries the rule's own code."""
+    shape = JOB_TEMPLATES[template]
+    name = f'job_rules[{template},dims={dims}]'
+    res = Result(name)
+    res.bounds = (f'one job; tasks per list {shape} (None = list absent); one place per task; demand per task: absent or {dims} amounts in [-2^14,2^14]; '
+                  f'durations integer-valued in [-2^16,2^16]; rules E1101 E1102 E1105 E1106 E1107')
+    t0 = time.time()
+    fns = {}
+    for fname, code in JOB_RULES:
+        fns[code] = ctx.prog.find_free(fname)
+
+    class Env(drivers.Env):
+        def override(self, engine, st, callee, args, dest_ty):
+            base = callee.split('::<')[0]
+            if 'core::fmt::rt::' in callee or 'fmt::Arguments' in callee or callee.startswith('Arguments::'):
+                return Opaque('fmt argument')      # message formatting is not the subject (empty stub)
+            if 'fmt::format' in callee or ']>::join' in callee or 'format_inner' in callee or callee in ('format', 'std::fmt::format', 'alloc::fmt::format'):
+                return Opaque('"formatted text"')
+            return super().override(engine, st, callee, args, dest_ty)
+
+        def default_of(self, engine, ty):
+            base = re.sub(r'<.*$', '', ty).split('::')[-1]
+            if base == 'MultiDimLoad':
+                return self.struct('load::MultiDimLoad', load=Agg('array', [IV(0, 'i32') for _ in range(8)], '[i32; 8]'), size=IV(0))
+            return super().default_of(engine, ty)
+
+    for code, fn in fns.items():
+        env = Env(ctx.prog, ctx.layout, 16)
+        eng, _ = ctx.engines(env)
+        holder = {}
+
+        def body(st, env=env, eng=eng, fn=fn, holder=holder):
+            env.assumptions.clear()
+            tasks = {}
+            fields = {}
+            for lst, n in shape.items():
+                if n is None:
+                    fields[lst] = mk_option(False, ty='Option<Vec<JobTask>>')
+                    tasks[lst] = []
+                    continue
+                items, info = [], []
+                for i in range(n):
+                    has = z3.Bool(f'{lst}{i}_has_demand')
+                    amounts = [env.sym_i(f'{lst}{i}_amount{d}', -2 ** 14, 2 ** 14, 'i32') for d in range(dims)]
+                    dur = env.sym_f(f'{lst}{i}_duration', -2 ** 16, 2 ** 16)
+                    place = env.struct('problem::model::JobPlace', location=Opaque('location'), duration=dur, times=mk_option(False, ty='Option<Vec<Vec<String>>>'),
+                                       tag=mk_option(False, ty='Option<String>'))
+                    items.append(env.struct('problem::model::JobTask', places=VecV([place]), demand=mk_option(has, VecV(list(amounts)), ty='Option<Vec<i32>>'),
+                                            order=mk_option(False, ty='Option<i32>')))
+                    info.append((has, amounts, dur))
+                fields[lst] = mk_option(True, VecV(items), ty='Option<Vec<JobTask>>')
+                tasks[lst] = info
+            none = lambda ty: mk_option(False, ty=ty)
+            job = env.struct('problem::model::Job', id=Opaque('"job1"'), skills=none('Option<JobSkills>'), value=none('Option<f64>'), group=none('Option<String>'),
+                             compatibility=none('Option<String>'), **fields)
+            plan_ = env.struct('problem::model::Plan', jobs=VecV([job]), relations=none('Option<Vec<Relation>>'), clustering=none('Option<Clustering>'))
+            problem = env.struct('problem::model::Problem', plan=plan_, fleet=Opaque('fleet'), objectives=none('Option<Vec<Objective>>'))
+            vctx = env.struct('validation::ValidationContext', problem=RefV(Cell(problem), 0), matrices=none('Option<&Vec<Matrix>>'), coord_index=RefV(Cell(Opaque('coord_index')), 0),
+                              job_index=Opaque('job_index'))
+            holder['tasks'] = tasks
+            return eng.exec_fn(st, fn, [RefV(Cell(vctx), 0)])
+
+        paths = eng.explore(body, max_paths=6000)
+        res.paths += len(paths)
+        res.functions |= eng.functions_used
+        saw_ok = saw_err = False
+        for st, out in paths:
+            if out is None:
+                if not no_panic(ctx, res, env, st, what=f'{name} {code}'):
+                    break
+                continue
+            tasks = holder['tasks']
+            every = [t for lst in tasks.values() for t in lst]
+            need = [t for lst in ('pickups', 'deliveries', 'replacements') for t in tasks[lst]]
+            if code == 'E1101':
+                broken = z3.Or(*([z3.Not(h) for h, _, _ in need] + [h for h, _, _ in tasks['services']] + [z3.BoolVal(False)]))
+            elif code == 'E1102':
+                if tasks['pickups'] and tasks['deliveries']:
+                    diff = []
+                    for d in range(dims):
+                        sp = sum([z3.If(h, a[d].t, 0) for h, a, _ in tasks['pickups']], z3.IntVal(0))
+                        sd = sum([z3.If(h, a[d].t, 0) for h, a, _ in tasks['deliveries']], z3.IntVal(0))
+                        diff.append(sp != sd)
+                    broken = z3.Or(*diff)
+                else:
+                    broken = z3.BoolVal(False)
+            elif code == 'E1105':
+                broken = z3.BoolVal(len(every) == 0)
+            elif code == 'E1106':
+                broken = z3.Or(*([dur.v < 0 for _, _, dur in every] + [z3.BoolVal(False)]))
+            else:
+                broken = z3.Or(*([z3.And(h, a[d].t < 0) for h, a, _ in every for d in range(dims)] + [z3.BoolVal(False)]))
+            is_err = zs(out.discr == 1)
+            claim = is_err == broken
+            if out.variant() != 0 and 1 in out.payload:
+                err = out.payload[1][0]
+                got = env.field(err, 'format::FormatError', 'code')
+                if not (isinstance(got, Opaque) and got.name == f'"{code}"'):
+                    res.status, res.detail = 'violated', f'{name}: rule {code} reports code {got!r}'
+                    break
+            if not decide_claim(ctx, res, env, st, claim, what=f'{name}: {code} reported <=> documented rule broken'):
+                if res.status == 'violated' and res.model is not None:
+                    m = res.model
+                    doc = {'id': 'job1'}
+                    for lst, info in tasks.items():
+                        if shape[lst] is None:
+                            continue
+                        doc[lst] = []
+                        for h, a, dur in info:
+                            t = {'places': [{'location': {'index': 0}, 'duration': float(_ev_int(m, dur.v))}]}
+                            if z3.is_true(m.eval(h, model_completion=True)):
+                                t['demand'] = [_ev_int(m, x.t) for x in a]
+                            doc[lst].append(t)
+                    res.case = {'kind': 'job_rules', 'job': doc, 'rule': code, 'dims': dims, 'problem': rules_problem(doc, dims),
+                                'matrix': {'profile': 'car', 'travelTimes': [0], 'distances': [0]}}
+                break
+            if not no_panic(ctx, res, env, st, what=f'{name} {code}'):
+                break
+            saw_ok = saw_ok or witness(ctx, res, env, st, z3.Not(is_err))
+            saw_err = saw_err or witness(ctx, res, env, st, is_err)
+        if res.status != 'holds':
+            break
+        res.witnesses += int(saw_ok) + int(saw_err)
+        if not (saw_ok or saw_err):
+            res.status, res.detail = 'inconclusive', f'vacuous for {code}'
+            break
+    res.time = time.time() - t0
+    return res
+
+
+def rules_problem(job, dims, costs=None):
+    far = rfc3339(30 * 86400)
+    return {'plan': {'jobs': [job]},
+            'fleet': {'vehicles': [{'typeId': 'type1', 'vehicleIds': ['v1'], 'profile': {'matrix': 'car'}, 'costs': costs or {'fixed': 1.0, 'distance': 1.0, 'time': 1.0},
+                                    'shifts': [{'start': {'earliest': rfc3339(0), 'location': {'index': 0}}, 'end': {'latest': far, 'location': {'index': 0}}}],
+                                    'capacity': [10] * dims}],
+                      'profiles': [{'name': 'car'}]}}
